@@ -45,6 +45,10 @@ fn main() {
         }
         i += 2;
     }
+    // anyhow captures (and later symbolises) a backtrace for every error when these are set: that would
+    // dominate the allocation and time measurements of the monitors
+    std::env::set_var("RUST_BACKTRACE", "0");
+    std::env::set_var("RUST_LIB_BACKTRACE", "0");
     install_panic_hook();
     let started = Instant::now();
     let stack = 1usize << 30; // the case loop runs on a 1 GiB stack; monitors choose smaller ones per case
